@@ -267,6 +267,18 @@ theorem keyed_cache_history_independent_iff {K V X : Type} [DecidableEq K] (key 
   · intro hkey h
     exact keyed_cache_sound key build (fun v _ => v) hkey h
 
+/-- the sharp-or-N decision of a lens (C04 `checkDist`) behind a one-entry cache with ANY key function: the lens
+    object answers every history like a fresh object iff the key determines the decision — e.g. a key made of the
+    hyper-parameters named `*_sigma` does not (it omits `sigma_sne`, on which `checkDist` of a magnification lens
+    depends: `C04.checkDist_true_iff`), and the history `σ_sne = 0, σ_sne > 0` shows it (seeded change C04n). -/
+theorem decision_cache_history_independent_iff {K : Type} [DecidableEq K] (cfg : Lens.LensCfg ℝ)
+    (isZero : ℝ → Bool) (key : Lens.Hyper ℝ → K) :
+    (∀ h : List (Lens.Hyper ℝ),
+        ((keyedCache key (fun hy => Lens.checkDist cfg hy isZero) (fun v _ => v)).run none h).2
+          = h.map (fun hy => Lens.checkDist cfg hy isZero))
+      ↔ ∀ x y, key x = key y → Lens.checkDist cfg x isZero = Lens.checkDist cfg y isZero :=
+  keyed_cache_history_independent_iff key _
+
 /-- non-vacuity: a cache keyed on the first coordinate only, of a quantity that depends on both (the FwCDM
     cache without `w`): the history `[(70, -1), (70, -0.6)]` returns the stale value -/
 example : ((keyedCache (fun x : Nat × Nat => x.1) (fun x => x.1 + x.2) (fun v _ => v)).run none [(70, 1), (70, 6)]).2
